@@ -1,13 +1,22 @@
-(* C09 lemmas (grown incrementally). *)
+(* C09: concrete witnesses (the findings replayed on the faithful model). *)
 From Coq Require Import ZArith List Bool Lia.
 Import ListNotations.
-From Osmo Require Import Gen.C09_consts C09.Model.
+From Osmo Require Import Gen.C09_consts C09.Model C09.Spec C09.ProofsCoins C09.ProofsDistr C09.ProofsLoop C09.ProofsInv C09.ProofsLife.
 Open Scope Z_scope.
 
-(* the F6 witness: gauge of 10^10 uosmo over 2 epochs for 1h locks of denom 0; one lock at epoch 1,
-   withdrawn before epoch 2 *)
-Definition w_cfg : config := mkCfg 0 1 0 3 [3600000; 10800000; 25200000] [0; 1; 2].
+Definition w_cfg : config := mkCfg 0 1 0 3 [1000; 3600000; 10800000; 25200000] [0; 1; 2].
 Definition w_funds : Z -> Z -> Z := fun _ _ => 10 ^ 30.
+Definition w_thr : Z -> tval := thr_fun [TVal 1; TNoRoute; TNoRoute; TNoRoute; TNoRoute].
+
+Lemma w_cfg_ok : cfg_ok w_cfg.
+Proof. unfold cfg_ok, w_cfg, cache_min_duration_ms; cbn. repeat constructor; lia. Qed.
+Lemma w_thr_positive : thr_positive w_thr.
+Proof.
+  intros d m H. unfold w_thr, thr_fun in H.
+  destruct (Z.to_nat d) as [|[|[|[|[|[|n]]]]]]; cbn in H; try discriminate; inversion H; lia.
+Qed.
+
+(* F6: gauge of 10^10 uosmo over 2 epochs for 1h locks of denom 0; one lock at epoch 1, withdrawn before epoch 2 *)
 Definition w_ops : list op :=
   [ OGauge 0 false 0 3600000 [(0, 10 ^ 10)] 0 2;
     OLock 1 0 1000 3600000;
@@ -22,3 +31,56 @@ Lemma witness_F6 :
   map (fun g => amount_of (g_dist g) 0) (s_gauges w_final) = [5 * 10 ^ 9] /\
   s_bank w_final MODULE 0 = 5 * 10 ^ 9.
 Proof. vm_compute. repeat split; reflexivity. Qed.
+
+Lemma finexact_refuted : ~ FinExact w_final.
+Proof.
+  intros H.
+  assert (X : exists g, In g (s_gauges w_final) /\ g_perp g = false /\ In (g_id g) (refs_all (s_fin w_final)) /\ g_filled g <> g_n g).
+  { vm_compute. eexists. split; [left; reflexivity|]. split; [reflexivity|]. split; [left; reflexivity|discriminate]. }
+  destruct X as (g & A & B & C & D). exact (D (H g A B C)).
+Qed.
+
+(* a 1-epoch gauge for a denomination nobody has locked finishes with 0 of 1 epochs paid *)
+Definition w6b_final : state :=
+  run w_cfg (init_state w_funds)
+    [ OGauge 0 false 1 3600000 [(0, 5 * 10 ^ 9)] 0 1; OEpoch 86400000 [TVal 1; TNoRoute; TNoRoute; TNoRoute; TNoRoute] ].
+Lemma witness_F6b :
+  refs_all (s_fin w6b_final) = [1] /\ map g_filled (s_gauges w6b_final) = [0] /\ s_bank w6b_final MODULE 0 = 5 * 10 ^ 9.
+Proof. vm_compute. repeat split; reflexivity. Qed.
+
+(* the epoch-end step as a total function, for the witnesses *)
+Definition epoch_of (cfg : config) (thr : Z -> tval) (s : state) : state :=
+  match after_epoch_end cfg thr s with Ok s' => s' | Err _ => s end.
+
+(* C09-F2: gauge of 100 uosmo over 1 epoch, minimum 1 uosmo, one qualifying lock of user 1 *)
+Definition w2_ops : list op := [ OGauge 0 false 0 3600000 [(0, 100)] 0 1; OLock 1 0 1000 3600000; OTime 86400000 ].
+Definition w2_pre : state := run w_cfg (init_state w_funds) w2_ops.
+Lemma witness_F2 :
+  after_epoch_end w_cfg w_thr w2_pre = Ok (epoch_of w_cfg w_thr w2_pre) /\
+  s_bank (epoch_of w_cfg w_thr w2_pre) 1 0 - s_bank w2_pre 1 0 = 0 /\
+  ideal_credit w_cfg w_thr w2_pre 1 0 = 100 /\
+  map g_filled (s_gauges (epoch_of w_cfg w_thr w2_pre)) = [1] /\ refs_all (s_fin (epoch_of w_cfg w_thr w2_pre)) = [1].
+Proof. vm_compute. repeat split; reflexivity. Qed.
+
+(* C09-F4: user 1 owns lock 1 (1000, rewards to user 2) and lock 2 (3000, rewards to user 3); gauge of 1000 uosmo *)
+Definition w4_ops : list op :=
+  [ OGauge 0 false 0 3600000 [(0, 1000)] 0 1; OLock 1 0 1000 3600000; OLock 1 0 3000 10800000; ORecv 1 2; ORecv 2 3; OTime 86400000 ].
+Definition w4_pre : state := run w_cfg (init_state w_funds) w4_ops.
+Lemma witness_F4 :
+  after_epoch_end w_cfg w_thr w4_pre = Ok (epoch_of w_cfg w_thr w4_pre) /\
+  s_bank (epoch_of w_cfg w_thr w4_pre) 2 0 - s_bank w4_pre 2 0 = 1000 /\
+  s_bank (epoch_of w_cfg w_thr w4_pre) 3 0 - s_bank w4_pre 3 0 = 0 /\
+  ideal_credit w_cfg w_thr w4_pre 2 0 = 250 /\ ideal_credit w_cfg w_thr w4_pre 3 0 = 750.
+Proof. vm_compute. repeat split; reflexivity. Qed.
+
+(* C09-F3: the quote of the minimum into reward denom 1 fails; a second, unrelated gauge is not paid either *)
+Definition w3_thr : Z -> tval := thr_fun [TVal 1; TErr; TNoRoute; TNoRoute; TNoRoute].
+Definition w3_ops : list op :=
+  [ ORoute 1 true;
+    OGauge 0 false 0 3600000 [(0, 10 ^ 9)] 0 1;
+    OGauge 0 false 1 3600000 [(1, 10 ^ 9)] 0 1;
+    OLock 1 0 1000 3600000; OLock 2 1 1000 3600000; OTime 86400000 ].
+Definition w3_pre : state := run w_cfg (init_state w_funds) w3_ops.
+Lemma witness_F3 :
+  after_epoch_end w_cfg w3_thr w3_pre = Err E_EPOCH /\ 0 < ideal_credit w_cfg w3_thr w3_pre 1 0.
+Proof. vm_compute. split; reflexivity. Qed.
